@@ -107,6 +107,25 @@ CLAIMED = {
         "technique": "Lean 4 proof (invariant by induction over the selector steps) + differential correspondence "
                      "on generated WSDLs",
     },
+    "C14": {
+        "text": "Lean theorems over the model of Properties/Link/Definition/TpLinker with the option definition "
+                "tables GENERATED from both options modules: names of the two domains are disjoint; an assignment "
+                "with an unknown name or wrong type raises and changes nothing (validate precedes store) and those "
+                "are exactly the rejected ones; a valid assignment is read back (default after None) and no other "
+                "option changes; transport options set on the client are the ones its transport reads and vice "
+                "versa; replacing the transport moves the link (new pair linked, old transport's options stand "
+                "alone); two clients' options are independent in both directions. The model (provider search through "
+                "links, re-linking, Client.clone) is tied to the code by running histories (all 2-step - 3 thorough - "
+                "over representative options after a clone, constructor kwargs, random up to length 30 over every "
+                "option of both domains) on real clients and comparing, after every step, every option read through "
+                "every client's and every transport's options with the model.",
+        "design_ref": "DESIGN.md section 6 C14",
+        "note": "set_get/frame are proved for every option but `transport` (whose assignment also re-links: "
+                "transport_replacement); object-valued options are compared by class; in-place mutation of shared "
+                "default containers is outside the alphabet.",
+        "technique": "Lean 4 proof (invariants of a linked property network, generated definition tables) + "
+                     "history-based correspondence on real clients",
+    },
 }
 
 NOT_YET = "check not built yet in this round (design in DESIGN.md section 6); not claimed"
